@@ -1615,38 +1615,81 @@ def data_offset_rule(prog, res, rule='data-offset'):
 # frames
 
 def frame_reader_rule(prog, res, rule='frame-read'):
+    """per header frame: header point count x (x, y, z, residual as REAL), then sub-frames (outer) x
+    channels (inner) x one REAL; stored at the same indices.  Decided on the I/O tree with file-local
+    helpers spliced in; a structure the rule does not read is UNDECIDED."""
     f = prog.fn('ezc3d::DataNS::Data::Data', nparams=1)
     seq = io_only(codec.Extractor(prog, 'r').seq_of(f))
     loops = [it for it in seq if it[0] == 'loop']
     inst = 'frame.layout'
-    if len(loops) != 1 or pshow(loops[0][1]) != 'arg0._header.nbFrames()':
-        res.viol(rule, inst, f.loc(), 'expected one loop over the header frame count', function=f.sig, expr=inst)
+    FRAMES = ('arg0._header.nbFrames()',)
+    if len(loops) != 1:
+        res.undecided(rule, inst, f.loc(), 'expected one loop over the header frame count, found %d loops with reads [shape not read by the rule]' % len(loops), function=f.sig, expr=inst)
+        return
+    if pshow(loops[0][1]) not in FRAMES:
+        (res.viol if recognisable(loops[0]) else res.undecided)(rule, inst, f.loc(loops[0][4]), 'the frame loop runs %s times; specified the header frame count' % pshow(loops[0][1]),
+                                                               function=f.sig, expr=inst)
         return
     fl = loops[0]
     body = io_only(fl[3])
-    # float-format guard
-    if len(body) == 1 and body[0][0] == 'alt' and body[0][1] == '(arg0._header._scaleFactor < 0)':
+    # float-format guard: frames are decoded as REAL only when the header scale is negative
+    R = Renderer(f)
+    SC = ('(arg0._header._scaleFactor < 0)',)
+    o = orient(body[0], SC) if len(body) == 1 and body[0][0] == 'alt' else None
+    if o is not None:
         res.ok(rule, 'frame.float-format', f.loc(body[0][4]), 'frames are decoded as REAL only when the header scale is negative', function=f.sig, expr='frame.float-format')
-        if any(x[0] == 'io' for x in _walk({'then': [], 'else': body[0][3]})):
+        if any(x[0] == 'io' for x in _walk({'then': [], 'else': o[1]})):
             res.viol(rule, 'frame.int-format', f.loc(body[0][4]), 'reads in the integer-format branch', function=f.sig, expr='frame.int-format')
-        body = io_only(body[0][2])
+        body = io_only(o[0])
     else:
-        res.viol(rule, 'frame.float-format', f.loc(fl[4]), 'frame decoding is not guarded by the float-format marker (scale < 0)', function=f.sig, expr='frame.float-format')
+        # the test may be made once before the loop (refusing the integer format there)
+        pre = None
+        for n in f.all_nodes({'IfStmt'}):
+            c = R.render(n['cond'])
+            if '_scaleFactor' in c and any(f.nodes[x]['k'] == 'CXXThrowExpr' for x in f.descendants(n['then']) + (f.descendants(n['else']) if 'else' in n else [])):
+                pre = n
+        mentions = any(n_['k'] == 'MemberExpr' and n_.get('member') == '_scaleFactor' for n_ in f.nodes) or any('_scaleFactor' in R.render(n_['cond']) for n_ in f.all_nodes({'IfStmt'}))
+        hoisted = False
+        if pre is not None and 'else' not in pre:
+            import indexsites as _IS
+            at = []
+            _IS.atoms_of_cond(f, R, pre['cond'], True, at)
+            others = [(l, op, r_) for l, op, r_, _ in at if '_scaleFactor' not in l and '_scaleFactor' not in r_]
+            sc = [(l, op, r_) for l, op, r_, _ in at if l.endswith('_header._scaleFactor') and op == '>=' and r_ == '0']
+            g = f.events()
+            lv = g.vertex_of.get(f.nodes[fl[4]].get('cond', -1))
+            pv = g.vertex_of.get(f.strip(pre['cond'], 'all')) or g.vertex_of.get(pre['id'])
+            if sc and all(l == 'arg0._header.nbFrames()' and op in ('>', '!=') and r_ == '0' for l, op, r_ in others) and _IS.always_exits(f, pre['then']):
+                hoisted = True
+        if hoisted:
+            res.ok(rule, 'frame.float-format', f.loc(pre['id']), 'a file whose header scale is not negative is refused before any frame is decoded (test made once, when there are frames)',
+                   function=f.sig, expr='frame.float-format')
+        elif pre is not None:
+            res.undecided(rule, 'frame.float-format', f.loc(pre['id']), 'the float-format marker is tested outside the frame loop (%s): not a form the rule tabulates [shape not read by the rule]' % R.render(pre['cond']),
+                          function=f.sig, expr='frame.float-format')
+        elif mentions:
+            res.undecided(rule, 'frame.float-format', f.loc(fl[4]), 'the float-format marker is consulted in a form the rule does not read [shape not read by the rule]', function=f.sig, expr='frame.float-format')
+        else:
+            res.viol(rule, 'frame.float-format', f.loc(fl[4]), 'frame decoding never consults the float-format marker (scale < 0): integer-format files would be decoded as REAL', function=f.sig, expr='frame.float-format')
+    body = flatten_calls(body)
     lps = [it for it in body if it[0] == 'loop']
     if len(lps) != 2:
-        res.viol(rule, inst, f.loc(fl[4]), 'a frame must be read as a point loop followed by an analog loop; found %d loops' % len(lps), function=f.sig, expr=inst)
+        res.undecided(rule, inst, f.loc(fl[4]), 'a frame must be read as a point loop followed by an analog loop; found %d loops [shape not read by the rule]' % len(lps), function=f.sig, expr=inst)
         return
     pl, al = lps
     # points: header point count x (x, y, z, residual)
-    okp = pshow(pl[1]) == 'arg0._header._nb3dPoints'
+    NP = ('arg0._header._nb3dPoints',)
+    okp = pshow(pl[1]) in NP
     reads = [it[1] for it in io_only(pl[3]) if it[0] == 'io']
     comps = []
     for d in reads:
-        m = re.match(r'^(local:\w+)\.(\w+)\(\)$', d.get('dest') or '')
+        m = re.match(r'^(local:\w+(?:@\d+)?)\.(\w+)\(\)$', d.get('dest') or '')
         comps.append((m.group(2) if m else d.get('dest'), d['k'], width_const(d)))
     want = [('x', 'readFloat', 4), ('y', 'readFloat', 4), ('z', 'readFloat', 4), ('residual', 'readFloat', 4)]
     if okp and comps == want:
         res.ok(rule, 'frame.point', reads[0]['where'], 'points x (x, y, z, residual) as 4 REAL each', function=f.sig, expr='frame.point')
+    elif not recognisable(pl) or len(reads) != len(io_only(pl[3])) or any(not isinstance(c_[0], str) or c_[0] not in ('x', 'y', 'z', 'residual') for c_ in comps):
+        res.undecided(rule, 'frame.point', f.loc(pl[4]), 'point loop runs %s times reading %s: not a form the rule tabulates [shape not read by the rule]' % (pshow(pl[1]), comps), function=f.sig, expr='frame.point')
     else:
         res.viol(rule, 'frame.point', f.loc(pl[4]), 'point loop runs %s times reading %s; specified header point count x %s' % (pshow(pl[1]), comps, want), function=f.sig, expr='frame.point')
     # each component setter stores into its own slot of _data
@@ -1657,6 +1700,8 @@ def frame_reader_rule(prog, res, rule='frame-read'):
                 tg[name] = setter_target(prog, g.usr)
     if tg == {'x': 'this._data[0]', 'y': 'this._data[1]', 'z': 'this._data[2]', 'residual': 'this._data[3]'}:
         res.ok(rule, 'frame.point.slots', 'src/Point.cpp', 'x,y,z,residual setters store _data[0..3]', function='', expr='frame.point.slots')
+    elif None in tg.values() or len(tg) != 4:
+        res.undecided(rule, 'frame.point.slots', 'src/Point.cpp', 'component setters are not plain stores (%s) [shape not read by the rule]' % tg, function='', expr='frame.point.slots')
     else:
         res.viol(rule, 'frame.point.slots', 'src/Point.cpp', 'component setters store %s' % tg, function='', expr='frame.point.slots')
     # analogs: sub-frame major
@@ -1664,47 +1709,58 @@ def frame_reader_rule(prog, res, rule='frame-read'):
     inner = [it for it in io_only(al[3]) if it[0] == 'loop']
     if oka and len(inner) == 1 and pshow(inner[0][1]) == 'arg0._header.nbAnalogs()':
         rd = [it[1] for it in io_only(inner[0][3]) if it[0] == 'io']
-        if len(rd) == 1 and rd[0]['k'] == 'readFloat' and re.match(r'^local:\w+\.data\(\)$', rd[0].get('dest') or ''):
+        if len(rd) == 1 and rd[0]['k'] == 'readFloat' and re.match(r'^local:\w+(?:@\d+)?\.data\(\)$', rd[0].get('dest') or ''):
             res.ok(rule, 'frame.analog', rd[0]['where'], 'sub-frames (outer) x channels (inner) x one REAL', function=f.sig, expr='frame.analog')
+        elif len(rd) == 1 and rd[0]['k'] in codec.READERS and (rd[0]['k'] != 'readFloat'):
+            res.viol(rule, 'frame.analog', rd[0]['where'], 'a channel value is read with %s, specified one REAL' % rd[0]['k'], function=f.sig, expr='frame.analog')
         else:
-            res.viol(rule, 'frame.analog', f.loc(inner[0][4]), 'channel loop does not read exactly one REAL into the channel value', function=f.sig, expr='frame.analog')
+            res.undecided(rule, 'frame.analog', f.loc(inner[0][4]), 'channel loop does not read exactly one REAL into the channel value [shape not read by the rule]', function=f.sig, expr='frame.analog')
+    elif len(inner) == 1 and recognisable(al) and pshow(al[1]) == 'arg0._header.nbAnalogs()' and pshow(inner[0][1]) == 'arg0._header._nbAnalogByFrame':
+        res.viol(rule, 'frame.analog', f.loc(al[4]), 'analog samples are read channel major (channels outer, sub-frames inner); the format stores them sub-frame major', function=f.sig, expr='frame.analog')
     else:
-        res.viol(rule, 'frame.analog', f.loc(al[4]), 'analog samples must be read sub-frame major: for each of header.nbAnalogByFrame sub-frames, header.nbAnalogs channels; found %s / %s' %
-                 (pshow(al[1]), [pshow(x[1]) for x in inner]), function=f.sig, expr='frame.analog')
+        res.undecided(rule, 'frame.analog', f.loc(al[4]), 'analog samples must be read sub-frame major: for each of header.nbAnalogByFrame sub-frames, header.nbAnalogs channels; found %s / %s [shape not read by the rule]' %
+                      (pshow(al[1]), [pshow(x[1]) for x in inner]), function=f.sig, expr='frame.analog')
     # storage: element i of the frame's points / (k, i) of its analogs, frame j
     storage_rule(prog, res, rule, f, fl, pl, al)
 
 
 def storage_rule(prog, res, rule, f, fl, pl, al):
-    R = Renderer(f)
     calls = {}
-    for n in f.calls():
-        if n['callee']['inrepo'] and f.call_obj(n) is not None:
-            calls.setdefault(n['callee']['name'], []).append((R.render(f.call_obj(n)), [R.render(a) for a in f.call_args(n)], n['id']))
+    for fn_, sub in _helper_family(prog, [f]):
+        Rf = Renderer(fn_)
+        for n in fn_.calls():
+            if n['callee']['inrepo'] and fn_.call_obj(n) is not None:
+                calls.setdefault(n['callee']['name'], []).append((Rf.render(fn_.call_obj(n)), [Rf.render(a) for a in fn_.call_args(n)], n['id'], fn_))
     j, i, k = fl[2], pl[2], al[2]
     ci = [it for it in io_only(al[3]) if it[0] == 'loop'][0][2] if [it for it in io_only(al[3]) if it[0] == 'loop'] else None
-    ok = True
     why = []
+    shape = []
     pts = [c for c in calls.get('point', []) if len(c[1]) == 2]
-    if not (len(pts) == 1 and pts[0][1][1] == 'local:%s' % i):
-        ok = False
-        why.append('point is not stored at index %s of the frame\'s points' % i)
+    if len(pts) != 1:
+        shape.append('no single indexed store of the point')
+    elif pts[0][1][1] != 'local:%s' % i:
+        why.append('point is stored at index %s, the point loop variable is %s' % (pts[0][1][1], i))
     ch = [c for c in calls.get('channel', []) if len(c[1]) == 2]
-    if not (len(ch) == 1 and ch[0][1][1] == 'local:%s' % ci):
-        ok = False
-        why.append('channel is not stored at its index in the sub-frame')
+    if len(ch) != 1:
+        shape.append('no single indexed store of the channel')
+    elif ch[0][1][1] != 'local:%s' % ci:
+        why.append('channel is stored at index %s, the channel loop variable is %s' % (ch[0][1][1], ci))
     sf = [c for c in calls.get('subframe', []) if len(c[1]) == 2]
-    if not (len(sf) == 1 and sf[0][1][1] == 'local:%s' % k):
-        ok = False
-        why.append('sub-frame is not stored at its index')
+    if len(sf) != 1:
+        shape.append('no single indexed store of the sub-frame')
+    elif sf[0][1][1] != 'local:%s' % k:
+        why.append('sub-frame is stored at index %s, the sub-frame loop variable is %s' % (sf[0][1][1], k))
     adds = calls.get('add', [])
-    if not (len(adds) == 2 and all(a[0] == 'this._frames[local:%s]' % j for a in adds)):
-        ok = False
-        why.append('points/analogs are not added to frame %s' % j)
-    if ok:
-        res.ok(rule, 'frame.storage', f.loc(), 'point i -> points[i]; channel i -> subframe[i]; subframe k -> analogs[k]; both -> frames[j]', function=f.sig, expr='frame.storage')
-    else:
+    if len(adds) != 2:
+        shape.append('points/analogs are not added to the frame by two add() calls')
+    elif not all(a[0] == 'this._frames[local:%s]' % j for a in adds):
+        why.append('points/analogs are added to %s, the frame loop variable is %s' % (sorted({a[0] for a in adds}), j))
+    if why:
         res.viol(rule, 'frame.storage', f.loc(), '; '.join(why), function=f.sig, expr='frame.storage')
+    elif shape:
+        res.undecided(rule, 'frame.storage', f.loc(), '; '.join(shape) + ' [shape not read by the rule]', function=f.sig, expr='frame.storage')
+    else:
+        res.ok(rule, 'frame.storage', f.loc(), 'point i -> points[i]; channel i -> subframe[i]; subframe k -> analogs[k]; both -> frames[j]', function=f.sig, expr='frame.storage')
 
 
 def io_paths(items):
@@ -1907,16 +1963,25 @@ def label_binding_rule(prog, res, rule='label-binding'):
     f = prog.fn('ezc3d::DataNS::Data::Data', nparams=1)
     R = Renderer(f)
     found = {}
-    for n in f.all_nodes({'IfStmt'}):
-        c = R.render(n['cond'])
-        m = re.match(r'^\(local:(\w+) < local:(\w+)\.size\)$', c)
-        if not m or 'else' not in n:
-            continue
-        i, names = m.group(1), m.group(2)
-        th = [f.nodes[x] for x in f.descendants(n['then']) if f.nodes[x]['k'] == 'CXXMemberCallExpr' and f.nodes[x]['callee']['name'] == 'name']
-        el = [f.nodes[x] for x in f.descendants(n['else']) if f.nodes[x]['k'] == 'CXXMemberCallExpr' and f.nodes[x]['callee']['name'] == 'name']
-        if len(th) == 1 and len(el) == 1 and R.render(th[0]['args'][0]) == 'local:%s[local:%s]' % (names, i):
-            found[names] = f.loc(n['id'])
+    wrong = []
+    for fn_, sub in _helper_family(prog, [f]):
+        Rf = Renderer(fn_)
+        for n in fn_.all_nodes({'IfStmt'}):
+            c = Rf.render(n['cond'])
+            m = re.match(r'^\(local:(\w+) < (local:\w+|arg\d+)\.size\)$', c)
+            if not m or 'else' not in n:
+                continue
+            i, names = m.group(1), m.group(2)
+            th = [fn_.nodes[x] for x in fn_.descendants(n['then']) if fn_.nodes[x]['k'] == 'CXXMemberCallExpr' and fn_.nodes[x]['callee']['name'] == 'name']
+            el = [fn_.nodes[x] for x in fn_.descendants(n['else']) if fn_.nodes[x]['k'] == 'CXXMemberCallExpr' and fn_.nodes[x]['callee']['name'] == 'name']
+            if len(th) == 1 and len(el) == 1:
+                outer = sub.get(names, names) if names.startswith('arg') else names
+                if not outer.startswith('local:'):
+                    continue
+                if Rf.render(th[0]['args'][0]) == '%s[local:%s]' % (names, i):
+                    found[outer[6:]] = fn_.loc(n['id'])
+                else:
+                    wrong.append('%s: element %s is named %s' % (fn_.loc(n['id']), i, Rf.render(th[0]['args'][0])))
     # the same logic behind a helper:  x.name(H(names, i, ...))  with  H: if (idx < labels.size()) return labels[idx]; <generated>
     for n in f.calls():
         if n['callee']['name'] != 'name' or not n.get('args'):
@@ -1951,11 +2016,16 @@ def label_binding_rule(prog, res, rule='label-binding'):
                 src[l[6:]] = m.group(1)
     want = {'POINT', 'ANALOG'}
     have = {src.get(k) for k in found}
-    if want <= have:
+    if want <= have and not wrong:
         res.ok(rule, 'positional label binding', ', '.join(sorted(found.values())), 'element i is named LABELS[i] when i < LABELS.size, else a generated name (points and channels)', function=f.sig, expr='labels')
-    else:
-        res.viol(rule, 'positional label binding', f.loc(), 'point/channel i must be named <GROUP>:LABELS[i] iff i < LABELS.size (found bindings for %s)' % sorted(x for x in have if x),
+    elif wrong:
+        res.viol(rule, 'positional label binding', f.loc(), 'point/channel i must be named <GROUP>:LABELS[i] iff i < LABELS.size; %s' % '; '.join(wrong), function=f.sig, expr='labels')
+    elif not src:
+        res.viol(rule, 'positional label binding', f.loc(), 'point/channel i must be named <GROUP>:LABELS[i] iff i < LABELS.size: the data reader never fetches the LABELS lists',
                  function=f.sig, expr='labels')
+    else:
+        res.undecided(rule, 'positional label binding', f.loc(), 'the LABELS lists are used to name points/channels in a form the rule does not read (bindings found for %s) [shape not read by the rule]' %
+                      sorted(x for x in have if x), function=f.sig, expr='labels')
 
 
 # ---------------------------------------------------------------------------------------------
